@@ -184,6 +184,21 @@ func (v *victim) control(tag string) error {
 	return nil
 }
 
+// controlBurst runs n control requests at once on fresh connections.
+func (v *victim) controlBurst(tag string, n int) error {
+	errs := make(chan error, n)
+	for i := 0; i < n; i++ {
+		go func(i int) { errs <- v.control(fmt.Sprintf("%s-b%d", tag, i)) }(i)
+	}
+	var first error
+	for i := 0; i < n; i++ {
+		if err := <-errs; err != nil && first == nil {
+			first = err
+		}
+	}
+	return first
+}
+
 // ---- case execution (client side) ----
 
 type cutConn struct {
@@ -282,6 +297,8 @@ func execCase(v *victim, tc *tcase) {
 		cc.doCut()
 	case "io-fault", "panic":
 		session(c, tc.Proto)
+	case "stalled-download-reset":
+		stalledDownloadReset(c)
 	case "stall":
 		// advance to the step, then stay silent with the connection open while a control client must be served
 		stallAt(c, tc.Step)
@@ -301,6 +318,72 @@ func execCase(v *victim, tc *tcase) {
 }
 
 var stallN int64
+
+// stalledDownloadReset: an HTTP/2 client requests a large download, never reads from its
+// socket (the proxy's socket write stalls with a DATA frame in flight), resets the stream,
+// and finally resets the TCP connection so that the stalled write fails.
+func stalledDownloadReset(c net.Conn) {
+	if tcp, ok := c.(*net.TCPConn); ok {
+		tcp.SetReadBuffer(4096)
+	}
+	t := tls.Client(c, &tls.Config{InsecureSkipVerify: true, ServerName: "front.example", NextProtos: []string{"h2"}})
+	c.SetDeadline(time.Now().Add(10 * time.Second))
+	if t.Handshake() != nil {
+		return
+	}
+	var b bytes.Buffer
+	b.WriteString(h2peer.ClientPreface)
+	b.Write(h2peer.RawFrame(4, 0, 0, []byte{0, 4, 0x7f, 0xff, 0xff, 0xff})) // INITIAL_WINDOW_SIZE 2^31-1
+	b.Write(h2peer.RawFrame(8, 0, 0, []byte{0x7f, 0xff, 0, 0}))             // connection window wide open
+	var hb bytes.Buffer
+	enc := hpack.NewEncoder(&hb)
+	for _, f := range []hpack.HeaderField{{Name: ":method", Value: "GET"}, {Name: ":scheme", Value: "https"}, {Name: ":authority", Value: "front.example"}, {Name: ":path", Value: "/big"}} {
+		enc.WriteField(f)
+	}
+	b.Write(h2peer.RawFrame(1, 5, 1, hb.Bytes()))
+	if _, err := t.Write(b.Bytes()); err != nil {
+		return
+	}
+	time.Sleep(700 * time.Millisecond)                    // kernel buffers fill, the proxy's write blocks
+	t.Write(h2peer.RawFrame(3, 0, 1, []byte{0, 0, 0, 8})) // RST_STREAM(CANCEL): the handler stops waiting
+	time.Sleep(150 * time.Millisecond)
+	if tcp, ok := c.(*net.TCPConn); ok {
+		tcp.SetLinger(0)
+	}
+	c.Close() // the stalled write fails
+}
+
+// boundaryFrames: every small HEADERS / DATA / PUSH_PROMISE frame around the padding and
+// priority length rules (what a frame parser slices with), 24 frames per connection.
+func boundaryFrames() [][]byte {
+	var frames [][]byte
+	for _, t := range []uint8{0, 1, 5} {
+		for _, fl := range []uint8{0x08, 0x28, 0x20, 0x2c, 0x0c, 0x2d} {
+			for L := 0; L <= 12; L++ {
+				for p := 0; p <= L+6; p++ {
+					pl := make([]byte, L)
+					if L > 0 {
+						pl[0] = byte(p)
+					}
+					frames = append(frames, h2peer.RawFrame(t, fl, 0, pl)) // stream id patched below
+				}
+			}
+		}
+	}
+	var conns [][]byte
+	for off := 0; off < len(frames); off += 24 {
+		var b bytes.Buffer
+		b.WriteString(h2peer.ClientPreface)
+		b.Write(h2peer.RawFrame(4, 0, 0, nil))
+		for k, f := range frames[off:min(off+24, len(frames))] {
+			sid := uint32(1 + 2*k)
+			f[5], f[6], f[7], f[8] = byte(sid>>24), byte(sid>>16), byte(sid>>8), byte(sid)
+			b.Write(f)
+		}
+		conns = append(conns, b.Bytes())
+	}
+	return conns
+}
 
 func stallAt(c net.Conn, step string) {
 	h := &hello.Hello{LegacyVersion: 0x0303, Compression: []byte{0}, Random: make([]byte, 32), Ciphers: []uint16{0xc02f, 0x009c, 0x1301},
@@ -550,6 +633,12 @@ func main() {
 			single = append(single, &tcase{Class: "stall", Step: st})
 		}
 	}
+	for rep := 0; rep < run.Pick(4, 40); rep++ {
+		single = append(single, &tcase{Class: "stalled-download-reset", Proto: "h2"})
+	}
+	for _, raw := range boundaryFrames() {
+		batched = append(batched, &tcase{Class: "post-handshake-bytes", Proto: "h2", raw: raw})
+	}
 	nfuzz := run.Pick(900, 40000)
 	for i := 0; i < nfuzz; i++ {
 		switch i % 3 {
@@ -621,7 +710,12 @@ func main() {
 					report(tc, "the proxy process terminated")
 					return restart() && false
 				}
-				if err := v.control(tag); err != nil {
+				err := v.control(tag)
+				if err == nil && tc.Class == "stalled-download-reset" {
+					// a fault of that connection must stay there: many concurrent control clients
+					err = v.controlBurst(tag, 48)
+				}
+				if err != nil {
 					if !v.alive() {
 						report(tc, "the proxy process terminated")
 					} else {
@@ -720,6 +814,8 @@ func describe(tc *tcase) string {
 		return fmt.Sprintf("panic in %s (%s)", tc.Panic, tc.Proto)
 	case "stall":
 		return "client stalled at " + tc.Step
+	case "stalled-download-reset":
+		return "h2 client stalls a 48 MiB download, resets the stream, then resets the connection"
 	}
 	return fmt.Sprintf("%s %s %d bytes", tc.Class, tc.Proto, len(tc.raw))
 }
